@@ -7,7 +7,7 @@ FAMILIES = [
     # -n = N, the number of executions of every history (pilot + fresh instances, half of the re-executions in
     # separate OS processes); the main history has 40 + 2N blocks
     {"name": "replay", "family": "replay", "group": "replay", "driver": "drv_replay",
-     "n_quick": 8, "n_thorough": 64, "seeds_thorough": 2},
+     "n_quick": 8, "n_thorough": 64, "seeds_thorough": 4},
 ]
 RULE = ("replay: one generated all-module history (5 pools, 14 providers incl. a blocked recipient, LPPD, depth rewards in "
         "wallet and pool mode, epoch bucket payouts in both modes, ratio shifting (float code), liquidity protection, "
